@@ -28,7 +28,10 @@ type Binding int
 const (
 	BindByName   Binding = iota // Go type name equals the GraphQL type name
 	BindRegister                // Root.RegisterType
-	BindGoDir                   // @go(type: ...) directive in the schema
+	BindGoDir                   // @go(type: "pkg.Type") directive in the schema
+	BindGoDirBare               // @go(type: "Type")
+	BindGoDirFull               // @go(type: "full/import/path.Type")
+	NumBindings
 )
 
 // ListMode selects the Go shape handed to ggql for list values (the branches of resolveList).
@@ -96,10 +99,12 @@ func NewReflWorld(u *Universe, lm ListMode, b Binding) (*World, error) {
 	w := &World{U: u, Strategy: Refl, ListMode: lm, Binding: b, faults: map[string]bool{}, nodes: map[string]interface{}{}}
 	w.Root = ggql.NewRoot(&refluni.Schema{B: w})
 	sdl := u.SDL()
-	if b == BindGoDir {
+	if b == BindGoDir || b == BindGoDirBare || b == BindGoDirFull {
+		prefix := map[Binding]string{BindGoDir: "refluni.", BindGoDirBare: "", BindGoDirFull: "verifharness/gq/refluni."}[b]
 		for _, tn := range []string{"A", "B", "C"} {
-			sdl = strings.Replace(sdl, "type "+tn+" ", "type "+tn+" @go(type: \"refluni."+tn+"\") ", 1)
-			sdl = strings.Replace(sdl, "@go(type: \"refluni."+tn+"\") implements Named", "implements Named @go(type: \"refluni."+tn+"\")", 1)
+			dir := "@go(type: \"" + prefix + tn + "\")"
+			sdl = strings.Replace(sdl, "type "+tn+" ", "type "+tn+" "+dir+" ", 1)
+			sdl = strings.Replace(sdl, dir+" implements Named", "implements Named "+dir, 1)
 		}
 	}
 	if err := w.Root.ParseString(sdl); err != nil {
